@@ -210,6 +210,10 @@ class C02Update:
         cur = sim.cur
         if cur is not None and sim.scn.get("physics") != "stub" and "drive" in sim.scn:
             # w is defined with epsilon^n = epsilon(r, t^n): the declared function at the time of the step
+            lay = sim.scn["device"]["layer"]
+            for name in ("gamma", "u"):
+                if name in lay and float(kw[name]) != float(lay[name]):
+                    return [Violation("parameter-in-force", f"step {rec['step']}: the update is evaluated with {name} = {float(kw[name])!r} where the device's layer has {name} = {float(lay[name])!r}", step=rec["step"], stage=rec["stage"], gamma=float(lay["gamma"]), dt=float(kw["dt"]))]
             want_eps = get_ctx(sim).eps_declared(cur["time"])
             if want_eps.shape == eps.shape and not aeq(eps, want_eps):
                 de = np.abs(eps - want_eps)
